@@ -809,27 +809,50 @@ def _pc_literals(ctx, f, stmt):
 
 def context_cases(ctx, f, expr: ast.AST, depth: int = 0):
     """[(conditions, leaf)] for the value of ``expr`` like gated_values, but a leaf that is a parameter (of ``f`` or of
-    an enclosing function) is followed to the argument at every call site, together with the path condition of that
-    call site: `g(1 if c else n)` and `if c: g(1) else: g(n)` give the same cases for the parameter of g."""
-    from .model import parent
-
+    an enclosing function), or a component of a tuple parameter, is followed to the argument at every call site,
+    together with the path condition of that call site: `g(1 if c else n)` and `if c: g(1) else: g(n)` give the same
+    cases for the parameter of g."""
     out = []
     for conds, leaf in gated_values(ctx, f, expr):
-        if leaf[0] == "param" and depth < 3:
-            pf = ctx.repo.funcs.get(leaf[1])
-            expanded = False
-            for caller, call in (ctx.cg.callers(pf) if pf is not None else []):
-                argn = _arg_node(ctx, pf, call, leaf[2])
-                if argn is None:
-                    continue
-                st = call
-                while parent(st) is not None and not isinstance(st, ast.stmt):
-                    st = parent(st)
-                pc = _pc_literals(ctx, caller, st) + tuple(_enclosing_conds(ctx, caller, call))
-                for c2, l2 in context_cases(ctx, caller, argn, depth + 1):
-                    out.append((tuple(conds) + pc + tuple(c2), l2))
-                    expanded = True
-            if expanded:
-                continue
-        out.append((tuple(conds), leaf))
+        out.extend(term_cases(ctx, tuple(conds), leaf, depth))
     return _feasible(out)
+
+
+def term_cases(ctx, conds: tuple, leaf, depth: int = 0):
+    """The calling-context cases of one leaf term (see context_cases)."""
+    from .model import parent
+
+    def expand_param(pterm):
+        pf = ctx.repo.funcs.get(pterm[1])
+        res_ = []
+        for caller, call in (ctx.cg.callers(pf) if pf is not None else []):
+            argn = _arg_node(ctx, pf, call, pterm[2])
+            if argn is None:
+                continue
+            st = call
+            while parent(st) is not None and not isinstance(st, ast.stmt):
+                st = parent(st)
+            pc = _pc_literals(ctx, caller, st) + tuple(_enclosing_conds(ctx, caller, call))
+            for c2, l2 in context_cases(ctx, caller, argn, depth + 1):
+                res_.append((pc + tuple(c2), l2))
+        return res_
+
+    def component(t, i):
+        if t[0] in ("tuple", "list") and -len(t[1]) <= i < len(t[1]):
+            return t[1][i]
+        return ("item", t, i)
+
+    if depth < 4:
+        if leaf[0] == "param":
+            ex = expand_param(leaf)
+            if ex:
+                return [(conds + c2, l2) for c2, l2 in ex]
+        # a component of a tuple parameter: `a, b = shape` / `shape[0]`
+        if leaf[0] == "item" and leaf[1][0] == "param" and isinstance(leaf[2], int):
+            ex = expand_param(leaf[1])
+            if ex:
+                out = []
+                for c2, l2 in ex:
+                    out.extend(term_cases(ctx, conds + c2, component(l2, leaf[2]), depth + 1))
+                return out
+    return [(conds, leaf)]
